@@ -128,13 +128,14 @@ def dotted(node):
     return ".".join(reversed(parts))
 
 
-def find_cond(expr, pol=True):
-    """first recognised setting in a test -> (cond, polarity)"""
+def find_cond(expr, pol=True, alias=None):
+    """first recognised setting in a test -> (cond, polarity); `alias`: local names bound to a setting"""
+    alias = alias or {}
     if isinstance(expr, ast.UnaryOp) and isinstance(expr.op, ast.Not):
-        return find_cond(expr.operand, not pol)
+        return find_cond(expr.operand, not pol, alias)
     if isinstance(expr, ast.BoolOp):
         for v in expr.values:
-            r = find_cond(v, pol)
+            r = find_cond(v, pol, alias)
             if r:
                 return r
         return None
@@ -143,7 +144,10 @@ def find_cond(expr, pol=True):
         if isinstance(n, ast.Attribute):
             key = n.attr
         elif isinstance(n, ast.Name):
-            key = n.id
+            if n.id in alias:
+                c, p = alias[n.id]
+                return c, (p == pol)
+            continue  # (a bare name is a setting only through a local binding)
         elif isinstance(n, ast.Constant) and isinstance(n.value, str):
             key = n.value
         if key in CONDS:
@@ -156,6 +160,7 @@ class Lin:
         self.table = table
         self.params = params
         self.out = []
+        self.alias = {}
 
     def emit(self, tok, guards):
         self.out.append((tok, list(guards)))
@@ -214,8 +219,14 @@ class Lin:
     def stmt(self, s, guards):
         if isinstance(s, (ast.FunctionDef, ast.AsyncFunctionDef, ast.ClassDef)):
             return
+        if isinstance(s, ast.Assign) and len(s.targets) == 1 and isinstance(s.targets[0], ast.Name):
+            c = find_cond(s.value, True, self.alias)
+            if c:
+                self.alias[s.targets[0].id] = c
+            else:
+                self.alias.pop(s.targets[0].id, None)
         if isinstance(s, ast.If):
-            g = find_cond(s.test)
+            g = find_cond(s.test, True, self.alias)
             self.expr(s.test, guards)
             if g:
                 self.block(s.body, guards + [g])
